@@ -40,6 +40,9 @@ CONFIGS_QUICK = [
     ("hertz_cone", "4+2", 0, "on", "sym", ["E", "contact_point"]),
     ("hertz_para", "4+2", 0, "off", "half", ["E", "contact_point"]),
     ("hertz_para", "3+3", 1, "on", "one", ["E"]),
+    # one varied parameter on five points: successful fits on a strict subset
+    # of the segment (witness "strict-subset")
+    ("hertz_para", "5+3", 0, "off", "one", ["E"]),
 ]
 CONFIGS_THOROUGH = CONFIGS_QUICK + [
     ("hertz_para", "4+2", 0, "on", "sym", ["E", "contact_point"]),
@@ -64,7 +67,8 @@ def tasks(tier):
         ts.append({"name": f"fit:{m}:{lay}:seg{seg}:w{wt}:k{k}:v{len(vary)}", "fn": "t_fit",
                    "args": {"model_key": m, "layout": lay, "segment": seg, "weighting": wt,
                             "kmode": k, "vary": vary},
-                   "witnesses": ["success", "too_few_points"], "max_paths": 3000})
+                   "witnesses": ["success", "too_few_points"] + (["strict-subset"] if lay == "5+3" and len(vary) == 1 else []),
+                   "max_paths": 3000})
     ts.append({"name": "multi-pass-failure:cone:4+2", "fn": "t_multipass_failure",
                "args": {"model_key": "hertz_cone", "layout": "4+2"}, "max_paths": 6000,
                "witnesses": ["later-pass-too-few-points"]})
@@ -143,6 +147,8 @@ def t_fit(model_key, layout, segment, weighting, kmode, vary):
         prove("fail:no-optimisation", len(symlmfit.CALLS) == 0)
         return {"outcome": "too few points", "decisions": len(core.cur().decisions)}
     witness("success")
+    if any(seg[i] == segment and rng[i] is False for i in range(n)):
+        witness("strict-subset")
     prove("ok:guard", npv < cnt - 1)
     prove("ok:one-optimisation", len(symlmfit.CALLS) == 1)
     call = symlmfit.CALLS[-1]
